@@ -720,6 +720,9 @@ func exactCanon(h []c04lib.Hit) string {
 
 // textSame: same matches with scores within 4 ulp; order and the cut may differ only among
 // scores within 4 ulp of each other (the score is a float sum taken in Go map order)
+// set by textSame when it meets an answer that is not in score order but is identical on both sides (see there)
+var textOrderNote string
+
 func textSame(a, b []c04lib.Hit) string {
 	if len(a) != len(b) {
 		return fmt.Sprintf("%d vs %d results", len(a), len(b))
@@ -736,7 +739,42 @@ func textSame(a, b []c04lib.Hit) string {
 			return fmt.Sprintf("score %d: %v vs %v", i, *a[i].Score, *b[i].Score)
 		}
 		if i > 0 && *a[i-1].Score < *a[i].Score {
-			return "scores not descending"
+			// The tolerance below (order and cut among near-equal scores) presupposes answers in score order.  That order is
+			// the text index's statement (C05), not this property's: when the two answers are the same sequence of points
+			// with the same scores, "same answer warm and cold" holds whatever the order is - the caller notes the order
+			// for C05's check (textOrderNote) and nothing is reported here.  Otherwise nothing can be tolerated.
+			// "the same": the same scores position by position; a point in both has the same score in both; points in
+			// only one of the answers pair up with points of the same score in the other (ties ordered / cut differently)
+			for k := range a {
+				if ulps(*a[k].Score, *b[k].Score) > 4 {
+					return fmt.Sprintf("scores not descending, and the answers differ at position %d: %s (score %v) vs %s (score %v)", k, a[k].Id, *a[k].Score, b[k].Id, *b[k].Score)
+				}
+			}
+			var onlyA, onlyB []float32
+			for id, x := range sa {
+				if y, ok := sb[id]; !ok {
+					onlyA = append(onlyA, x)
+				} else if ulps(x, y) > 4 {
+					return fmt.Sprintf("scores not descending, and %s scored %v vs %v", id, x, y)
+				}
+			}
+			for id, y := range sb {
+				if _, ok := sa[id]; !ok {
+					onlyB = append(onlyB, y)
+				}
+			}
+			sort.Slice(onlyA, func(i, j int) bool { return onlyA[i] < onlyA[j] })
+			sort.Slice(onlyB, func(i, j int) bool { return onlyB[i] < onlyB[j] })
+			if len(onlyA) != len(onlyB) {
+				return "scores not descending, and the answers hold different points"
+			}
+			for k := range onlyA {
+				if ulps(onlyA[k], onlyB[k]) > 4 {
+					return fmt.Sprintf("scores not descending, and a point of score %v is only in one answer, one of score %v only in the other", onlyA[k], onlyB[k])
+				}
+			}
+			textOrderNote = fmt.Sprintf("the text answer is not in descending score order (position %d: %v then %v); it is the same sequence on both shards", i, *a[i-1].Score, *a[i].Score)
+			return ""
 		}
 	}
 	for id, s := range sa {
@@ -822,7 +860,43 @@ func (rn *runner) compareAll(q anyQuery, refs []shardRef) {
 		}
 		liveCanon = c04lib.FlatCanon(liveCands, lh)
 		if why := c04lib.FlatOracle(q.Limit, q.Weight, liveCands, lh); why != "" {
-			o.Fail("flat-knn:"+warm+":"+liveCfg.Eff().Metric+"/"+liveCfg.Eff().Quant.String(), live.name+" shard: "+why, rn.replayOf(&q, warm))
+			// The exact-kNN oracle is C04's statement.  It is evaluated here because a stale cache or a lost write shows as a
+			// departure from it - but then the other shards (cold, reopened, other cache sizes, memory backend) answer
+			// DIFFERENTLY.  If every comparable shard gives the same answer (modulo distance ties), the answer is a function of the
+			// committed history and the same warm and cold: this property holds on the query and the departure from exact
+			// kNN belongs to C04 (noted for its check).  Anything else is reported here as before.
+			same, compared := true, 0
+			hyb := func(hs []c04lib.Hit) string {
+				p := make([]string, len(hs))
+				for i, x := range hs {
+					p[i] = fmt.Sprintf("%08x", math.Float32bits(x.Hybrid))
+				}
+				return strings.Join(p, ",")
+			}
+			for _, ref := range refs[1:] {
+				// the same comparison as below for an answer that passes the oracle: canonical modulo distance ties, against
+				// the candidates of that shard; a shard with its own k-means under a trained product quantiser is not comparable
+				cands := liveCands
+				if ref.own {
+					c, st, ok := flatCands(ref)
+					if !ok || (st.Cfg.Quant == c04lib.QProduct && (st.Trained || liveSt.Trained)) {
+						continue
+					}
+					cands = c
+				}
+				h, err := c04lib.Search(ref.sh, q.toQuery())
+				compared++
+				if err != nil || c04lib.FlatCanon(cands, h) != liveCanon || hyb(h) != hyb(lh) {
+					same = false
+					break
+				}
+			}
+			sig := "flat-knn:" + warm + ":" + liveCfg.Eff().Metric + "/" + liveCfg.Eff().Quant.String()
+			if same && compared > 0 {
+				o.Note("C04", "c08 flat queries, exact-kNN oracle", sig, fmt.Sprintf("%s shard: %s; the %d comparable shards (cold / reopened / other cache sizes / memory backend) return the same answer (canonical modulo distance ties, same hybrid scores), so the answer is the same warm and cold and only its exactness (C04) is in question", live.name, why, compared), rn.replayOf(&q, warm))
+				return
+			}
+			o.Fail(sig, live.name+" shard: "+why, rn.replayOf(&q, warm))
 			return
 		}
 	}
@@ -871,7 +945,11 @@ func (rn *runner) compareAll(q anyQuery, refs []shardRef) {
 				diff = fmt.Sprintf("%s %s, %s %s", warm, a, ref.name, b)
 			}
 		case "text":
+			textOrderNote = ""
 			diff = textSame(lh, h)
+			if diff == "" && textOrderNote != "" {
+				o.Note("C05", "c08 text queries", "text-order:"+ref.name, fmt.Sprintf("text query %s: %s (%s and %s)", q.show(), textOrderNote, warm, ref.name), rn.replayOf(&q, ref.name))
+			}
 		case "flat":
 			cands := liveCands
 			det := true
